@@ -396,9 +396,13 @@ def _key_names(e):
     for n in ast.walk(e):
         if isinstance(n, ast.Attribute) and n.attr in ("shape", "size", "ndim", "dtype", "nbytes") and isinstance(n.value, ast.Name): weak.add(id(n.value))
         if isinstance(n, ast.Call) and isinstance(n.func, ast.Name) and n.func.id in ("len", "type") and len(n.args) == 1 and isinstance(n.args[0], ast.Name): weak.add(id(n.args[0]))
+        if isinstance(n, ast.Attribute) and n.attr in ("shape", "size", "ndim", "dtype", "nbytes") and isinstance(n.value, ast.Attribute): weak.add(id(n.value))
+        if isinstance(n, ast.Call) and isinstance(n.func, ast.Name) and n.func.id in ("len", "type") and len(n.args) == 1 and isinstance(n.args[0], ast.Attribute): weak.add(id(n.args[0]))
     out = set()
     for n in ast.walk(e):
         if isinstance(n, ast.Name) and isinstance(n.ctx, ast.Load) and id(n) not in weak: out.add(n.id)
+        # self.x / self.config[...] in the key covers the dependency on that attribute
+        if isinstance(n, ast.Attribute) and isinstance(n.value, ast.Name) and n.value.id == "self" and id(n) not in weak: out.add("self." + n.attr)
     return out
 
 
